@@ -76,7 +76,7 @@ fn check_crash(i: &Inst, p: &Prep, k: usize) -> CaseResult {
 }
 
 pub fn instances(ctx: &Ctx) -> Vec<Inst> {
-    let n = ctx.tier.pick(400, 2000);
+    let n = ctx.tier.pick(400, 12_000);
     let ls = sample(ctx.seed ^ 0xC17, n, &logical::logical(Gen { max_tiles: 200, allow_big: false, allow_adv: false, full_floats: false }));
     let mut out: Vec<Inst> = ls.into_iter().enumerate().map(|(k, mut l)| {
         l.settings.internal = 1 + (k % 4) as u8;
